@@ -196,3 +196,46 @@ Theorem C05_base64_chunks_unaligned_refuted :
     /\ (1048576 mod 3 <> 0)%N.
 Proof. exists [1], [2]. repeat split; vm_compute; discriminate. Qed.
 Print Assumptions C05_base64_chunks_unaligned_refuted.
+
+(* ROUND TRIP WITH THE CONCRETE CODEC: no abstract codec law is left.  With the model's RFC 4648 encoder and
+   strict decoder, for every instance whose payload bytes are < 256 (true of every Python bytes / bytearray /
+   BytesIO), under the hypotheses of C05_roundtrip_partial, from_json(loads(dumps(to_json v))) = canon v. *)
+Theorem C05_roundtrip_concrete_codec :
+  forall (isspace : N -> bool) (R : registry), registry_wf R = true ->
+    forall c fl, let v := VData c fl in
+      has_type isspace R v TAny = true -> keys_not_markers v = true -> no_other v = true -> bytes_ok v = true ->
+      exists w, pipeline b64enc b64dec isspace R v = Some w /\ w = canon v
+                /\ to_json b64enc w = to_json b64enc v /\ class_of w = Some c
+                /\ (dict_keys_distinct v = true -> payloads w = payloads v)
+                /\ (forall b, serialize b64enc b w = serialize b64enc b v).
+Proof. exact roundtrip_concrete_codec. Qed.
+Print Assumptions C05_roundtrip_concrete_codec.
+
+(* the encoder's output is canonical base64 (accepted by the strict decoder) ... *)
+Theorem C05_base64_encoder_output_canonical :
+  forall b : bytes, forallb is_byte b = true -> b64_canonical (b64enc b) = true.
+Proof. exact b64enc_canonical. Qed.
+Print Assumptions C05_base64_encoder_output_canonical.
+
+(* ... hence from_json never sees non-canonical input produced by to_json: ANY decoder that agrees with the strict
+   one on canonical strings (Python's lenient b64decode does) restores the same object — what a decoder does with
+   non-canonical input (discarded characters, inner padding, missing padding) is never exercised. *)
+Theorem C05_decoder_sees_only_canonical :
+  forall (dec' : str -> option bytes) (isspace : N -> bool) (R : registry),
+    (forall t, b64_canonical t = true -> dec' t = b64dec t) -> registry_wf R = true ->
+    forall c fl, let v := VData c fl in
+      has_type isspace R v TAny = true -> keys_not_markers v = true -> no_other v = true -> bytes_ok v = true ->
+      exists w, pipeline b64enc dec' isspace R v = Some w /\ w = canon v
+                /\ to_json b64enc w = to_json b64enc v /\ class_of w = Some c
+                /\ (dict_keys_distinct v = true -> payloads w = payloads v)
+                /\ (forall b, serialize b64enc b w = serialize b64enc b v).
+Proof. exact roundtrip_any_lenient_decoder. Qed.
+Print Assumptions C05_decoder_sees_only_canonical.
+
+(* deserialize_extraction raises its documented ValueError exactly for a non-dict or a dict without `_type` *)
+Theorem C05_from_json_value_error :
+  forall (dec : str -> option bytes) (isspace : N -> bool) (R : registry) (j : json),
+    from_json_outcome dec isspace R j = OValueError <->
+    (is_object j = false \/ exists kvs, j = JObj kvs /\ has_key K_TYPE kvs = false).
+Proof. exact from_json_value_error. Qed.
+Print Assumptions C05_from_json_value_error.
